@@ -2,7 +2,9 @@
 //! working tree with the `verif-hooks` feature) on generated operations and
 //! records requests, the implementation's answers, and specification queries
 //! for the Lean driver.
+mod rx;
 mod suites;
+mod synth;
 mod util;
 
 use std::path::PathBuf;
@@ -69,8 +71,49 @@ fn main() {
             }
         }
     }
+    let rest_args = rest.clone();
+    let rest = rest_args;
     match suite.as_str() {
         "dump" => suites::dump::run(),
+        "sigtest2" => {
+            // amplitude / configuration grid
+            for (cfgname, lo, hi) in [("default", 0.0f32, 1.0e6f32), ("i16", 1.0 / 32767.0, 1.0 / 200.0)] {
+                for rate in [8000u32, 22050, 48000] {
+                    for amp in [0.01f64, 0.1, 0.5, 1.0, 200.0, 300.0, 1000.0, 10000.0, 32000.0] {
+                        for lead in [0.0f64, 0.5, 2.0] {
+                            let mut rng = util::Rng::new(ctx.seed);
+                            let hdr = util::gen_header(&mut rng, 3, 8).text().into_bytes();
+                            let mut line = synth::Line::clean(rate);
+                            line.amplitude = amp;
+                            let a = synth::transmission(line, &mut rng, &hdr, lead, 1.0, 2.0, 7, 7, 2.0);
+                            let mut r = sameold::SameReceiverBuilder::new(rate).with_agc_gain_limits(lo, hi).build();
+                            let evs = rx::run_plain(&mut r, &a.samples);
+                            let m = rx::messages(&evs);
+                            let nb = evs.iter().filter(|e| e.burst().is_some()).count();
+                            println!("{} {} amp={} lead={}: bursts={} msgs={:?}", cfgname, rate, amp, lead, nb, m.iter().map(|x| x.1.chars().take(3).collect::<String>() + &x.1[x.1.len().saturating_sub(7)..]).collect::<Vec<_>>());
+                        }
+                    }
+                }
+            }
+        }
+        "sigtest" => {
+            // smoke test: one clean transmission per standard rate
+            for rate in [8000u32, 11025, 16000, 22050, 32000, 44100, 48000, 96000] {
+                let mut rng = util::Rng::new(ctx.seed);
+                let hdr = util::gen_header(&mut rng, 3, 8).text().into_bytes();
+                let t0 = std::time::Instant::now();
+                let a = synth::transmission(synth::Line::clean(rate), &mut rng, &hdr, 0.5, 1.0, 2.0, 7, 7, 2.0);
+                let mut r = rx::default_rx(rate);
+                let (evs, taps) = rx::run_tapped(&mut r, &a.samples);
+                println!("{} Hz: {} samples, {} events, {} ticks, {:?}: {:?}", rate, a.samples.len(), evs.len(), taps.ticks.len(), t0.elapsed(), rx::messages(&evs));
+                if rest.iter().any(|x| x == "-v") {
+                    println!("   bursts at {:?}", a.bursts);
+                    for e in &evs {
+                        println!("   {}", util::trunc(&rx::show_event(e), 150));
+                    }
+                }
+            }
+        }
         "exec" => {
             use std::io::BufRead;
             for line in std::io::stdin().lock().lines() {
